@@ -1,4 +1,5 @@
 import Zc.Model.Wire.DecodeSpec
+import Zc.Model.Wire.DecodeWork
 namespace Zc.Driver.C02
 open Zc Zc.Wire Zc.Wire.DecodeLib Zc.Wire.DecodeSpec
 
@@ -33,6 +34,23 @@ def cmdBudget (toks : List String) : String :=
   | some [len, names, acts, reads, depth] => b01 (withinBudget len names acts reads depth)
   | _ => "bad-op"
 
+/-- `c02w <hex>` → the model's loop counters: `questions records bmCalls bmIters bmBytes bmTypes` -/
+def cmdWork (toks : List String) : String :=
+  match toks with
+  | [h] => match bytesOfHex h with
+    | some b => (parseWork b).toLine
+    | none => "bad-op"
+  | _ => "bad-op"
+
+/-- `c02wb <len> <names> <acts> <reads> <questions> <records> <bmCalls> <bmIters> <bmBytes> <bmTypes> <steps>` →
+`<loops within budget> <lines within the calibrated cost model>` on measured counters -/
+def cmdWorkBudget (toks : List String) : String :=
+  match toks.mapM String.toNat? with
+  | some [len, names, acts, reads, q, r, calls, iters, bytes, types, steps] =>
+    let w : Work := ⟨q, r, calls, iters, bytes, types⟩
+    s!"{b01 (workWithin len w)} {b01 (linesWithin steps names acts reads w)}"
+  | _ => "bad-op"
+
 /-- `c02g <len>` → does the listener hand a datagram of that length to the decoder -/
 def cmdGuard (toks : List String) : String :=
   match toks.mapM String.toNat? with
@@ -52,6 +70,8 @@ def dispatch (cmd : String) (rest : List String) : Option String :=
   | "c02" => some (cmdParse rest)
   | "c02s" => some (cmdStrict rest)
   | "c02b" => some (cmdBudget rest)
+  | "c02w" => some (cmdWork rest)
+  | "c02wb" => some (cmdWorkBudget rest)
   | "c02g" => some (cmdGuard rest)
   | "c02n" => some (cmdNameLen rest)
   | _ => none
